@@ -6,6 +6,7 @@
 #include "util/exception.hh"
 #include <cstring>
 #include <cstdlib>
+#include <sys/mman.h>
 
 using namespace pv;
 
@@ -42,6 +43,34 @@ static Reg r_utf8_isutf8("utf8.isutf8", [](const std::vector<std::string> &a) ->
   bool r = util::IsUTF8(util::StringPiece(p, bs.size()));
   delete[] buf;
   return r ? "true" : "false";
+});
+
+// utf8.iterhuge <n> <hex>: a text of n bytes (n may exceed 2^32) that begins with the given bytes and continues with NULs, held in
+// a lazily committed anonymous mapping; constructs the real DecodeUTF8Iterator on it and reports the first code point and its
+// length.  With a third argument "is" it also asks IsUTF8 for the verdict on the whole text when that is cheap to predict
+// (an ill-formed front must be rejected) - the full scan of 2^32 NULs is left to the thorough tier ("scan").
+static Reg r_utf8_iterhuge("utf8.iterhuge", [](const std::vector<std::string> &a) -> std::string {
+  std::string bs;
+  if (a.size() < 2 || a.size() > 3 || !unhex(a[1], bs)) return "bad-op";
+  unsigned long long n = strtoull(a[0].c_str(), NULL, 10);
+  if (n < bs.size() || n == 0) return "bad-op";
+  size_t maplen = ((n + 4095) / 4096 + 1) * 4096;
+  void *m = mmap(NULL, maplen, PROT_READ | PROT_WRITE, MAP_PRIVATE | MAP_ANONYMOUS | MAP_NORESERVE, -1, 0);
+  if (m == MAP_FAILED) return "skipped:mmap";
+  char *p = static_cast<char*>(m);
+  memcpy(p, bs.data(), bs.size());
+  std::string out;
+  try {
+    util::DecodeUTF8Iterator it(util::StringPiece(p, n));
+    out = "ok " + std::to_string((uint32_t)*it) + " " + std::to_string(it.UTF8().size());
+  } catch (const util::NotUTF8Exception &) {
+    out = "ERR:notutf8";
+  }
+  if (a.size() == 3 && a[2] == "scan") {
+    out += util::IsUTF8(util::StringPiece(p, n)) ? " true" : " false";
+  }
+  munmap(m, maplen);
+  return out;
 });
 
 // ---------------------------------------------------------------- base64 (C09)
